@@ -93,7 +93,8 @@ def call(m, name, e, b=None, X=None):
 
 
 def run_std(rs, ctx, l, p, e):
-    cfg = gen.gen_cfg(rs, l, p, labels=gen.pick(rs, ["int", "str", "float"]), n_arms=int(rs.integers(2, 5)))
+    cfg = gen.gen_cfg(rs, l, p, labels=gen.pick(rs, ["int", "str", "float"]), n_arms=int(rs.integers(2, 5)),
+                      with_probs=bool(rs.integers(2)))
     nf = int(gen.pick(rs, [1, 2, 3]))
     n = int(rs.integers(8, 20))
     b1 = gen.gen_batch(rs, cfg, cfg["arms"], n, nf, distinct_rows=5)
